@@ -247,7 +247,12 @@ def check(res, tier):
                           {"trace": [" ".join(x) for x in t][:400], "c_ledger": cv, "lean_ledger": mv, "kind": "correspondence",
                            "theorem": "Props/C05.lean (all theorems are about DDP.Ledger.step/run)"})
     # the ownership model of the code generator (DDP.Own): the calls it predicts per function vs the IR of kddp -O 0
-    own_st = ownmodel.stage(res, ddp, model, sd + 977, 60 if quick else 1200)
+    def run_and_judge(src):
+        r = pipeline.compile_run(ddp, {"main.ddp": src}, pipeline.Config(opt=0, ledger=True), timeout=5)
+        if r.cls == "timeout":
+            return None     # the generated loop did not end; no verdict
+        return judge_heap(res, "own-model", r, None, Counter(), src)
+    own_st = ownmodel.stage(res, ddp, model, sd + 977, 60 if quick else 1200, run_and_judge=run_and_judge)
     res.extra["own_model"] = own_st
     for bk in broken:
         res.violation("obligation:" + bk["name"], "proof obligation no longer checks: %s" % bk["name"],
